@@ -1342,3 +1342,20 @@ struct FourTuple {
     // A single socket can only listen on a single port, so no need to store it explicitly
     local_ip: Option<IpAddr>,
 }
+
+#[cfg(feature = "verif-hooks")]
+impl Endpoint {
+    /// Read-only projection for external verification harnesses
+    pub fn verif_probe(&self) -> crate::verif::EndpointProbe {
+        crate::verif::EndpointProbe {
+            connections: self.connections.len(),
+            connection_ids: self.index.connection_ids.len(),
+            connection_ids_initial: self.index.connection_ids_initial.len(),
+            incoming_connection_remotes: self.index.incoming_connection_remotes.len(),
+            outgoing_connection_remotes: self.index.outgoing_connection_remotes.len(),
+            reset_tokens: self.index.connection_reset_tokens.0.values().map(|x| x.len()).sum(),
+            incoming_buffers: self.incoming_buffers.len(),
+            incoming_buffer_bytes: self.all_incoming_buffers_total_bytes,
+        }
+    }
+}
